@@ -321,4 +321,30 @@ theorem computeRun_spec {ρ : Type} (f : Nat → ρ) (s : DS ρ) (batch : Nat) (
   · by_cases h : s.status[p]? = some 0 <;> simp [h, hlen, hp]
   · by_cases h : s.status[p]? = some 0 <;> simp [h, hp]
 
+/-! the marks `compute()` starts from -/
+
+theorem pendingFrom_ones (i a : Nat) (rest : List Nat) :
+    pendingFrom i (List.replicate a 1 ++ rest) = pendingFrom (i + a) rest := by
+  induction a generalizing i with
+  | zero => simp
+  | succ a ih =>
+    rw [List.replicate_succ, List.cons_append]
+    simp only [pendingFrom]
+    rw [if_neg (by decide), ih]
+    congr 1; omega
+
+theorem pendingFrom_zeros (i b : Nat) : pendingFrom i (List.replicate b 0) = List.range' i b := by
+  induction b generalizing i with
+  | zero => simp [pendingFrom]
+  | succ b ih =>
+    rw [List.replicate_succ]
+    simp only [pendingFrom, if_true]
+    rw [ih, List.range'_succ]
+
+theorem pending_markPrefix_zeros (n k : Nat) :
+    pending (markPrefix (List.replicate n 0) k) = List.range' (min k n) (n - k) := by
+  unfold pending markPrefix
+  rw [pendingFrom_ones, List.drop_replicate, pendingFrom_zeros]
+  simp
+
 end Usid.Proc
